@@ -1,10 +1,10 @@
-\* C48 phase 2 leg A, relabel "dropb" before deletion; family "labels": <= 2 series over labels a in {absent,1,2} x b in {absent,1}; <= 2 requests with 1..2
+\* C48 phase 2 leg A, relabel "dropb" before deletion; family "labels": one series over labels a in {absent,1,2} x b in {absent,1}; one request with 1..2
 \* matchers from a pool of 7 (EQ/NEQ/RE/NRE, incl. a="" and negative matchers on missing labels), whole-series and
 \* interval deletions; all inputs handed to leg B.
 SPECIFICATION Spec
 CONSTANTS Family = "labels"
           G = 4
-          LTwo = TRUE
+          LTwo = FALSE
           EmitTwoRequests = TRUE
           Relabel = "dropb"
 INVARIANTS C48_ResultSatisfiesProperty FunctionalFormAgrees
